@@ -346,3 +346,158 @@ Proof.
   unfold fvar_normalize. destruct (negb (len coords =? len axes)); [right; eexists; reflexivity|].
   apply normalize_axes_total.
 Qed.
+
+(* ---------- monotonicity through a monotone avar map *)
+Definition interp (s e : Z * Z) (x : Z) : Z :=
+  let ratio := fx_div (fx_sub x (fx_of_f2dot14 (fst s)))
+                      (fx_sub (fx_of_f2dot14 (fst e)) (fx_of_f2dot14 (fst s))) in
+  fx_add (fx_of_f2dot14 (snd s)) (fx_mul ratio (fx_sub (fx_of_f2dot14 (snd e)) (fx_of_f2dot14 (snd s)))).
+
+(* inside a segment the interpolated value is ts*4 + floor(q * (te-ts)*4 / 65536) with
+   q = floor((x - fs*4) * 65536 / ((fe - fs)*4)) in [0, 65536) *)
+Lemma interp_exact s e x : i16_pair s -> i16_pair e -> fst s < fst e -> snd s <= snd e ->
+  fst s * 4 <= x < fst e * 4 ->
+  let q := (x - fst s * 4) * 65536 / ((fst e - fst s) * 4) in
+  0 <= q < 65536 /\ interp s e x = snd s * 4 + q * ((snd e - snd s) * 4) / 65536.
+Proof.
+  intros [Hs1 Hs2] [He1 He2] Hlt Hle Hx q.
+  assert (0 <= q < 65536) as Hq.
+  { unfold q. split; [apply Z.div_pos; lia|]. apply Z.div_lt_upper_bound; lia. }
+  split; [exact Hq|].
+  unfold interp, fx_of_f2dot14. rewrite !fx_sub_small by lia.
+  unfold fx_div. replace (fst e * 4 - fst s * 4 =? 0) with false by lia.
+  rewrite Z.quot_div_nonneg by lia.
+  replace (fst e * 4 - fst s * 4) with ((fst e - fst s) * 4) by lia. fold q.
+  rewrite to_signed32_small by lia.
+  unfold fx_mul.
+  assert (0 <= q * (snd e * 4 - snd s * 4) / 65536 <= snd e * 4 - snd s * 4) as Hm.
+  { split; [apply Z.div_pos; nia|]. apply Z.div_le_upper_bound; nia. }
+  rewrite to_signed32_small by lia.
+  unfold fx_add. rewrite to_signed32_small by lia.
+  replace (snd e * 4 - snd s * 4) with ((snd e - snd s) * 4) by lia. reflexivity.
+Qed.
+
+Lemma interp_bounds s e x : i16_pair s -> i16_pair e -> fst s < fst e -> snd s <= snd e ->
+  fst s * 4 <= x < fst e * 4 -> snd s * 4 <= interp s e x <= snd e * 4.
+Proof.
+  intros Hs He Hlt Hle Hx. destruct (interp_exact s e x Hs He Hlt Hle Hx) as [Hq ->].
+  destruct Hs as [_ Hs2]. destruct He as [_ He2].
+  set (q := (x - fst s * 4) * 65536 / ((fst e - fst s) * 4)) in *.
+  assert (0 <= q * ((snd e - snd s) * 4) / 65536 <= (snd e - snd s) * 4).
+  { split; [apply Z.div_pos; nia|]. apply Z.div_le_upper_bound; nia. }
+  lia.
+Qed.
+
+Lemma interp_mono s e x y : i16_pair s -> i16_pair e -> fst s < fst e -> snd s <= snd e ->
+  fst s * 4 <= x -> x <= y -> y < fst e * 4 -> interp s e x <= interp s e y.
+Proof.
+  intros Hs He Hlt Hle Hx Hxy Hy.
+  destruct (interp_exact s e x Hs He Hlt Hle ltac:(lia)) as [Hqx ->].
+  destruct (interp_exact s e y Hs He Hlt Hle ltac:(lia)) as [Hqy ->].
+  assert ((x - fst s * 4) * 65536 / ((fst e - fst s) * 4) <= (y - fst s * 4) * 65536 / ((fst e - fst s) * 4)) as Hq
+    by (apply Z.div_le_mono; lia).
+  apply Z.add_le_mono_l. apply Z.div_le_mono; [lia|]. apply Z.mul_le_mono_nonneg_r; lia.
+Qed.
+
+Definition targets_mono (maps : list (Z * Z)) : Prop := StronglySorted (fun a b => snd a <= snd b) maps.
+
+Lemma seg_scan_cons s e rest x :
+  seg_scan (Some s) (e :: rest) x =
+  if fst e * 4 =? x then snd e * 4
+  else if x <? fst e * 4 then interp s e x
+  else seg_scan (Some e) rest x.
+Proof. reflexivity. Qed.
+
+(* value bounds and monotonicity of the scan from a start knot s, for x between s and the last knot *)
+Lemma last_in_tail (r : Z * Z) l d : In (last (r :: l) d) (r :: l).
+Proof.
+  revert r. induction l as [|a l IH]; intros r; [left; reflexivity|].
+  right. change (last (r :: a :: l) d) with (last (a :: l) d). apply IH.
+Qed.
+
+Lemma seg_scan_bounds_mono : forall maps s, maps <> [] ->
+  map_ok (s :: maps) -> targets_mono (s :: maps) ->
+  (forall x, fst s * 4 <= x -> x <= fst (last maps s) * 4 ->
+     snd s * 4 <= seg_scan (Some s) maps x <= snd (last maps s) * 4) /\
+  (forall x y, fst s * 4 <= x -> x <= y -> y <= fst (last maps s) * 4 ->
+     seg_scan (Some s) maps x <= seg_scan (Some s) maps y).
+Proof.
+  induction maps as [|e rest IH]; intros s Hne [Hsort Hrange] Hmono; [congruence|].
+  inversion Hsort as [|? ? Hsort' Hall]; subst. inversion Hrange as [|? ? Hs Hrange']; subst.
+  inversion Hmono as [|? ? Hmono' Hmall]; subst.
+  inversion Hall as [|? ? Hlt _]; subst. inversion Hmall as [|? ? Hle _]; subst.
+  inversion Hrange' as [|? ? He _]; subst.
+  assert (map_ok (e :: rest)) as Hok' by (split; assumption).
+  destruct rest as [|r rest'].
+  - (* e is the last knot *)
+    cbn [last]. split.
+    + intros x Hx1 Hx2. rewrite seg_scan_cons.
+      destruct (fst e * 4 =? x) eqn:E1; [destruct Hs, He; lia|].
+      replace (x <? fst e * 4) with true by lia.
+      pose proof (interp_bounds s e x Hs He Hlt Hle ltac:(lia)). lia.
+    + intros x y Hx Hxy Hy. rewrite !seg_scan_cons.
+      destruct (fst e * 4 =? x) eqn:Ex1; destruct (fst e * 4 =? y) eqn:Ey1; try lia.
+      * replace (x <? fst e * 4) with true by lia.
+        pose proof (interp_bounds s e x Hs He Hlt Hle ltac:(lia)). lia.
+      * replace (x <? fst e * 4) with true by lia. replace (y <? fst e * 4) with true by lia.
+        apply interp_mono; auto; lia.
+  - destruct (IH e ltac:(congruence) Hok' Hmono') as [IHb IHm].
+    change (last (e :: r :: rest') s) with (last (r :: rest') s).
+    assert (last (r :: rest') s = last (r :: rest') e) as Hlast.
+    { clear. revert r. induction rest' as [|a l IHl]; intros r; [reflexivity|].
+      change (last (r :: a :: l) s) with (last (a :: l) s). change (last (r :: a :: l) e) with (last (a :: l) e). apply IHl. }
+    rewrite Hlast.
+    assert (fst e < fst (last (r :: rest') e) /\ snd e <= snd (last (r :: rest') e)) as [Hfl Htl].
+    { inversion Hsort' as [|? ? _ Ha]; subst. inversion Hmono' as [|? ? _ Hb]; subst.
+      pose proof (last_in_tail r rest' e) as Hin.
+      rewrite Forall_forall in Ha, Hb. specialize (Ha _ Hin). specialize (Hb _ Hin). lia. }
+    split.
+    + intros x Hx1 Hx2. rewrite (seg_scan_cons s e (r :: rest')).
+      destruct (fst e * 4 =? x) eqn:E1; [destruct Hs, He; lia|].
+      destruct (x <? fst e * 4) eqn:E2.
+      * pose proof (interp_bounds s e x Hs He Hlt Hle ltac:(lia)). lia.
+      * specialize (IHb x ltac:(lia) Hx2). destruct Hs; lia.
+    + intros x y Hx Hxy Hy. rewrite !(seg_scan_cons s e (r :: rest')).
+      destruct (fst e * 4 =? x) eqn:Ex1; destruct (fst e * 4 =? y) eqn:Ey1; try lia.
+      * replace (y <? fst e * 4) with false by lia.
+        specialize (IHb y ltac:(lia) Hy). lia.
+      * destruct (x <? fst e * 4) eqn:E2; [|lia].
+        pose proof (interp_bounds s e x Hs He Hlt Hle ltac:(lia)). lia.
+      * destruct (x <? fst e * 4) eqn:E2; destruct (y <? fst e * 4) eqn:E3; try lia.
+        -- apply interp_mono; auto; lia.
+        -- pose proof (interp_bounds s e x Hs He Hlt Hle ltac:(lia)).
+           specialize (IHb y ltac:(lia) Hy). lia.
+        -- apply IHm; lia.
+Qed.
+
+(* monotone in the default-normalised value over [-1, 1] for a valid monotone segment map *)
+Lemma avar_normalize_mono maps x y :
+  map_ok maps -> targets_mono maps -> (1 <= length maps)%nat ->
+  fst (hd (0, 0) maps) = -16384 -> fst (last maps (0, 0)) = 16384 ->
+  -65536 <= x -> x <= y -> y <= 65536 ->
+  avar_normalize maps x <= avar_normalize maps y.
+Proof.
+  intros Hok Hmono Hlen Hfirst Hlast Hx Hxy Hy. unfold avar_normalize.
+  destruct maps as [|e0 rest]; [cbn in Hlen; lia|]. cbn [hd] in Hfirst.
+  destruct rest as [|e1 rest]; [cbn [last] in Hlast; lia|].
+  rewrite !seg_scan_none.
+  destruct (seg_scan_bounds_mono (e1 :: rest) e0 ltac:(congruence) Hok Hmono) as [_ Hm].
+  assert (last (e0 :: e1 :: rest) (0, 0) = last (e1 :: rest) e0) as Hl.
+  { change (last (e0 :: e1 :: rest) (0, 0)) with (last (e1 :: rest) (0, 0)).
+    clear. revert e1. induction rest as [|a l IH]; intros e1; [reflexivity|].
+    change (last (e1 :: a :: l) (0, 0)) with (last (a :: l) (0, 0)). change (last (e1 :: a :: l) e0) with (last (a :: l) e0). apply IH. }
+  rewrite Hl in Hlast. apply Hm; lia.
+Qed.
+
+Lemma normalize_axis_avar_mono minv def maxv maps x y : minv <= def <= maxv -> x <= y ->
+  map_ok maps -> targets_mono maps -> (1 <= length maps)%nat ->
+  fst (hd (0, 0) maps) = -16384 -> fst (last maps (0, 0)) = 16384 ->
+  normalize_axis (minv, def, maxv) x (Some maps) <= normalize_axis (minv, def, maxv) y (Some maps).
+Proof.
+  intros Ha Hxy Hok Hmono Hlen Hf Hl. unfold normalize_axis.
+  pose proof (dn_range minv def maxv x). pose proof (dn_range minv def maxv y).
+  pose proof (dn_mono minv def maxv x y Ha Hxy).
+  change (fx_of_int (-1)) with (-65536). change (fx_of_int 1) with 65536. unfold clampZ.
+  apply f2dot14_of_fx_mono; try lia.
+  pose proof (avar_normalize_mono maps _ _ Hok Hmono Hlen Hf Hl (proj1 H) H1 (proj2 H0)). lia.
+Qed.
